@@ -32,8 +32,9 @@ fn c09_safe(name: &str) -> bool {
 pub fn pairs(tier: Tier) -> Vec<Pair> {
     let mut out: Vec<Pair> = vec![];
     let mut g = Gen::new();
-    let mut push = |base: &str, steps: Vec<&'static str>, w: &J, r: J, out: &mut Vec<Pair>| {
-        let all_safe = steps.iter().all(|s| c09_safe(s));
+    let mut push = |base: &str, steps: Vec<&'static str>, safe: bool, w: &J, r: J, out: &mut Vec<Pair>| {
+        // the generator's own flag matters too: a step that drops a field default is not always-safe
+        let all_safe = safe && steps.iter().all(|s| c09_safe(s));
         let idx = out.len();
         out.push(Pair { idx, base: base.to_string(), steps, all_safe, w: w.clone(), r });
     };
@@ -46,10 +47,10 @@ pub fn pairs(tier: Tier) -> Vec<Pair> {
         }
     }
     for (name, w) in &ws {
-        push(name, vec![], w, w.clone(), &mut out); // identity
+        push(name, vec![], true, w, w.clone(), &mut out); // identity
         let first: Vec<Step> = g.variants(w);
         for s1 in &first {
-            push(name, vec![s1.name], w, s1.reader.clone(), &mut out);
+            push(name, vec![s1.name], s1.safe, w, s1.reader.clone(), &mut out);
         }
         // two steps on the hand-written bases
         let two = !name.starts_with("su") || tier == Tier::Thorough;
@@ -62,7 +63,7 @@ pub fn pairs(tier: Tier) -> Vec<Pair> {
                     if tier == Tier::Quick && !(c09_safe(s1.name) || c09_safe(s2.name)) {
                         continue;
                     }
-                    push(name, vec![s1.name, s2.name], w, s2.reader, &mut out);
+                    push(name, vec![s1.name, s2.name], s1.safe && s2.safe, w, s2.reader, &mut out);
                 }
             }
         }
@@ -109,6 +110,59 @@ fn parse_pair(p: &Pair, st: &mut Stats) -> Option<Parsed> {
         }
     };
     Some(Parsed { ws, wenv, rs, renv, wl, rl })
+}
+
+/// Exact equality of library values, floats compared bit for bit.
+fn value_eq(a: &Value, b: &Value) -> bool {
+    match (a, b) {
+        (Value::Float(x), Value::Float(y)) => x.to_bits() == y.to_bits() || (x.is_nan() && y.is_nan()),
+        (Value::Double(x), Value::Double(y)) => x.to_bits() == y.to_bits() || (x.is_nan() && y.is_nan()),
+        (Value::Union(i, x), Value::Union(j, y)) => i == j && value_eq(x, y),
+        (Value::Array(x), Value::Array(y)) => x.len() == y.len() && x.iter().zip(y).all(|(p, q)| value_eq(p, q)),
+        (Value::Map(x), Value::Map(y)) => x.len() == y.len() && x.iter().all(|(k, p)| y.get(k).is_some_and(|q| value_eq(p, q))),
+        (Value::Record(x), Value::Record(y)) => x.len() == y.len() && x.iter().zip(y).all(|(p, q)| p.0 == q.0 && value_eq(&p.1, &q.1)),
+        (x, y) => x == y,
+    }
+}
+
+/// Re-judge a disagreement with the specification under the deviant model (value-based resolution
+/// as implemented at the pinned commit): only an exact match of the library's result with the
+/// model's result is a recorded finding; the finding ids name the lenient rules that fired.
+fn rejudge(class: &str, v: &V, pp: &Parsed, got: &Result<Value, String>) -> Option<Vec<&'static str>> {
+    if !matches!(class, "different-value" | "lib-ok-spec-none" | "lib-err-spec-value") {
+        return None;
+    }
+    if matches!(got, Err(e) if e.starts_with("panic")) {
+        return None;
+    }
+    let mut notes = crate::libmodel::Notes::new();
+    let model = crate::libmodel::resolve(to_lib(v, &pp.ws, &pp.wenv), &pp.rs, &pp.renv, &mut notes);
+    let same = match (&model, got) {
+        (Err(()), Err(_)) => true,
+        (Ok(m), Ok(l)) => value_eq(m, l),
+        _ => false,
+    };
+    notes.0.retain(|n| *n != crate::libmodel::NON_UTF8 && *n != crate::libmodel::NOT_A_UUID);
+    if !same || notes.0.is_empty() {
+        return None;
+    }
+    Some(
+        notes
+            .0
+            .iter()
+            .map(|n| match *n {
+                "long-narrowed-to-int-when-it-fits" | "double-narrowed-to-float" => "D-C08-narrowing-accepted-when-the-value-fits",
+                "named-type-names-not-compared" => "D-C08-names-of-records-enums-fixed-not-compared",
+                "reader-field-aliases-not-used" => "D-C08-reader-field-aliases-not-used",
+                "defaults-converted-from-json-by-value" => "D-C08-defaults-converted-by-json-value-not-by-field-type",
+                "decimal-rejected-unless-its-bytes-are-as-wide-as-the-precision" => "D-C08-decimal-rejected-unless-bytes-as-wide-as-precision",
+                "string-to-fixed-without-size-check" => "D-C08-string-to-fixed-without-size-check",
+                "fixed-accepted-by-string-reader" => "D-C08-fixed-accepted-by-string-reader",
+                "logical-type-value-not-accepted-by-reader-of-the-underlying-type" => "D-C08-logical-type-value-rejected-by-reader-of-the-underlying-type",
+                _ => "D-C08-reader-union-branch-chosen-from-the-value",
+            })
+            .collect(),
+    )
 }
 
 /// Root-cause classes of the recorded C08/C09 deviations, derived from the evolution steps.
@@ -212,10 +266,12 @@ pub fn run_c08(tier: Tier, replay: Option<&J>) -> i32 {
                             st.sample(|| json!({"writer": p.w, "reader": p.r, "steps": p.steps, "value": v.short(), "result": ev::trunc(&format!("{got:?}"), 200)}));
                         }
                     }
-                    Some((class, msg)) => match c08_deviation(p, class) {
-                        Some(dev) => {
+                    Some((class, msg)) => match rejudge(class, v, &pp, &got) {
+                        Some(devs) => {
                             st.outcome("known-deviation");
-                            st.deviation(dev, || case(&msg));
+                            for dev in devs {
+                                st.deviation(dev, || case(&msg));
+                            }
                         }
                         None => {
                             st.outcome(&format!("violation:{class}:{:?}", p.steps));
@@ -242,6 +298,45 @@ pub fn run_c08(tier: Tier, replay: Option<&J>) -> i32 {
 
 // ---------------------------------------------------------------------------------------------
 
+/// A Full verdict whose read fails is a recorded finding only when the harness's model of the library's
+/// value-based resolution (libmodel) also fails on this very value and names the rules that fired.
+fn c09_judge(v: &V, ws: &S, wenv: &Env, rs: &S, renv: &Env) -> Option<Vec<&'static str>> {
+    let mut notes = crate::libmodel::Notes::new();
+    let model = crate::libmodel::resolve(to_lib(v, ws, wenv), rs, renv, &mut notes);
+    // only the rule at which the model gave up counts here
+    if model.is_ok() || notes.1.is_empty() {
+        return None;
+    }
+    // the selection of a reader union branch is the cause only when the rules themselves do give a result
+    // for this value; otherwise something inside the branch failed (an enum symbol, say) and that is no
+    // recorded finding
+    let union_note = "reader-union-branch-chosen-from-the-value-not-the-writer-schema";
+    if notes.1.contains(&union_note) {
+        let cx = Ctx { wenv, renv };
+        if refresolve::resolve(ws, rs, v, &cx).is_err() {
+            notes.1.retain(|n| *n != union_note);
+            if notes.1.is_empty() {
+                return None;
+            }
+        }
+    }
+    Some(
+        notes
+            .1
+            .iter()
+            .map(|n| match *n {
+                crate::libmodel::NON_UTF8 => "D-C09-bytes-to-string-is-full-but-bytes-that-are-not-utf8-cannot-be-read",
+                crate::libmodel::NOT_A_UUID => "D-C09-plain-string-or-bytes-to-uuid-is-full-but-only-uuid-shaped-values-can-be-read",
+                "reader-field-aliases-not-used" => "D-C09-full-verdict-relies-on-reader-field-aliases-that-reading-ignores",
+                "logical-type-value-not-accepted-by-reader-of-the-underlying-type" => "D-C09-full-across-logical-types-but-the-read-rejects-the-value",
+                "defaults-converted-from-json-by-value" => "D-C09-full-but-the-reader-default-cannot-be-converted",
+                _ => "D-C09-full-but-reader-union-branch-chosen-from-the-value-fails",
+            })
+            .collect(),
+    )
+}
+
+#[allow(dead_code)]
 fn c09_deviation(p: &Pair) -> Option<&'static str> {
     let has = |s: &str| p.steps.iter().any(|x| *x == s);
     if has("rename-field-with-alias") {
@@ -315,10 +410,12 @@ pub fn run_c09(tier: Tier, replay: Option<&J>) -> i32 {
                         }
                         Err(e) => {
                             let case = || json!({"writer": p.w, "reader": p.r, "steps": p.steps, "verdict": "Full", "value": v.short(), "read": e});
-                            match c09_deviation(p) {
-                                Some(dev) => {
+                            match c09_judge(v, &pp.ws, &pp.wenv, &pp.rs, &pp.renv) {
+                                Some(devs) => {
                                     st.outcome("known-deviation");
-                                    st.deviation(dev, case);
+                                    for dev in devs {
+                                        st.deviation(dev, case);
+                                    }
                                 }
                                 None => {
                                     st.outcome(&format!("violation:full-but-read-fails:{:?}", p.steps));
@@ -368,10 +465,11 @@ pub fn run_c09(tier: Tier, replay: Option<&J>) -> i32 {
                             let bytes = refbin::encode(v, &wsc.s, &wsc.env);
                             if let Err(e) = lib_read(wl, rl, &bytes) {
                                 let case = || json!({"writer": wsc.json, "reader": rsc.json, "verdict": "Full", "value": v.short(), "read": e});
-                                let logical_mix = wsc.text.contains("logicalType") != rsc.text.contains("logicalType") || (wsc.text.contains("logicalType") && wsc.text != rsc.text);
-                                if logical_mix {
+                                if let Some(devs) = c09_judge(v, &wsc.s, &wsc.env, &rsc.s, &rsc.env) {
                                     st.outcome("known-deviation");
-                                    st.deviation("D-C09-full-across-logical-types-but-read-fails", case);
+                                    for dev in devs {
+                                        st.deviation(dev, case);
+                                    }
                                 } else {
                                     st.outcome("violation:full-but-read-fails:slice");
                                     st.violate(order | 4, "can_read says Full but a value cannot be read (exhaustive slice)", case(), json!({}));
